@@ -9,7 +9,7 @@ Driver entry for C07. Every input line is one JSON object written by harness/c07
   {"ctl","cls","reloadErr","sum":{…graph summary…},"st":{…REAL statuses…},"conf":{…REAL configuration…},"objs":{…}}
   `model` : run `StatusPrep.prepare` on "sum" and compare with "st":  `ok` | `diff <what>;…`
   `judge` : evaluate the property (`StatusJudge.judge`) on objs + real conf + real statuses:
-            `ok` | `skip <why>` | `fail <tag>;<tag>…`
+            `ok` | `skip <why>` | `fail <tag>;<tag>…`, optionally followed by ` ## <reason-disagreement>;…` (a statistic, not a verdict)
   `fragment` : lines that carry "flat" (the flat scenario of harness/c02.Flatten): `PipelineStatusTie.toFragmentV` gives the
             `Pipeline.Scenario`; `PipelineStatus.routeParentStatuses` / `gatewayStatus` / ignored Gateways against "st":
             `skip` | `out <why outside the fragment>` | `ok <stats>` | `diff <stats> ## <what>`
@@ -170,7 +170,16 @@ def handlerDiffs (line : Json) : Except String (List String) :=
       let ct ← reqStr b "ct"
       let ctv := if ct = "c" then ChangeType.clusterState else if ct = "e" then ChangeType.endpointsOnly else ChangeType.noChange
       let o : Outcome := ⟨← reqBool b "w", ← reqBool b "r", ← reqBool b "api"⟩
-      let (s', st) := step plus s ctv o
+      -- an upsert/delete of the Service that fronts NGF in the batch: the out-of-batch Gateway status write
+      let svc := match optField b "svc" with
+        | some (.str x) => x != ""
+        | _ => false
+      let obsSvcSt := match optField b "obsSvcSt" with
+        | some (.bool x) => x
+        | _ => false
+      let (s', svcWrite, st) := stepSvc plus s svc ctv o
+      if svcWrite.isSome != obsSvcSt then
+        out := out ++ [s!"handler:out-of-batch-status-write-issued:batch{idx}:model={svcWrite.isSome}"]
       if s'.latestErr != (← reqBool b "obsErr") then
         out := out ++ [s!"handler:latestReloadResult:batch{idx}:ct={ct}:model={s'.latestErr}"]
       if s'.version != (← reqNat b "obsVer") then
@@ -180,6 +189,11 @@ def handlerDiffs (line : Json) : Except String (List String) :=
       s := s'
       idx := idx + 1
     if s.failed != truth then out := out ++ ["handler:environment-truth"]
+    -- the result status preparation got for this line (for a `-svc` line: the one the out-of-batch write used) is the
+    -- remembered result of the model after the history so far (`outOfBatchWrite`)
+    match optField line "prepErr" with
+    | some (.bool pe) => if outOfBatchWrite s != pe then out := out ++ [s!"handler:remembered-result:model={outOfBatchWrite s}"]
+    | _ => pure ()
     pure out
 
 def modelLine (line : String) : String :=
@@ -278,7 +292,11 @@ def judgeLine (line : String) : String :=
         | some why => "skip " ++ why
         | none =>
           let f := judge i
-          if f.isEmpty then "ok" else "fail " ++ ";".intercalate f
+          -- statistic appended after " ## " (never part of the verdict): Accepted=False reasons that differ from the
+          -- Gateway API reading of the objects
+          let rs := reasonDisagreements i
+          (if f.isEmpty then "ok" else "fail " ++ ";".intercalate f) ++
+            (if rs.isEmpty then "" else " ## " ++ ";".intercalate rs)
 
 /-! ### fragment stream: `PipelineStatus` (statuses from the Pipeline scenario) against the real statuses -/
 
